@@ -134,7 +134,21 @@ Print Assumptions C15_compound_completion_refuted.
    (CompoundDefs.stepB / runB: members are [Some size] or [None] = bare) mirrors that recursion;
    it is the model of the theorems above whenever no member is bare.  The theorems do NOT
    quantify over compositions with bare members: those are tied to the code by the differential
-   run and the oracle only (checks/C15.py, corpus/C15). *)
+   run and the oracle only (checks/C15.py, corpus/C15).
+   EXACTLY WHAT REMAINS for bare members (nothing is assumed, it is simply not proved):
+     (a) the chain lemma: on a state whose members >= k are untouched, [add_member bare fuel k]
+         (fuel >= number of members) processes the maximal run k .. d'-1 of bare members — each
+         gets cb = 1, enq = 1, TERMINATED, completed_taskpools and the compound's pending actions
+         move by d'-k, the log grows by LPoolCb k .. LPoolCb (d'-1), then LEnq d' (or LCompound when
+         d' is past the end, repaired constructor), then LEnq (d'-1) .. LEnq k — by induction on fuel;
+     (b) CompoundAbs.advance / conc generalised to skip such runs (finished and untouched pool
+         records depend on the member kind), CompoundRefine.step_conc re-proved with (a) in
+         detected_advance and step_add;
+     (c) CompoundProofs.advance_inv by induction over the run, with entry_ok weakened where a bare
+         member's on_enqueue comes late: the clause In (LEnq k) of C15_member_callback_after_its_tasks
+         and of C15_compound_after_last_fixed holds for non-bare k only.
+   Statements expected unchanged: C15_sequential, C15_enabled_after_previous, C15_nothing_twice,
+   C15_all_exactly_once, C15_no_stuck, C15_steps_monotone, C15_active_taskpools. *)
 Theorem C15_model_with_bare_members_conservative : forall pre sizes evs,
   runB pre (map Some sizes) evs = run pre sizes evs.
 Proof. exact runB_no_bare. Qed.
